@@ -282,11 +282,9 @@ impl<H: DnsHandle> DnssecDnsHandle<H> {
             .authorities
             .iter()
             .filter_map(|rr| {
-                if message
-                    .authorities
-                    .iter()
-                    .any(|r| r.name == rr.name && r.proof == Proof::Secure)
-                {
+                // Only a record whose own RRset was authenticated is a proof; another secure record
+                // at the same owner name (the SOA next to a forged apex NSEC) says nothing about it.
+                if rr.proof == Proof::Secure {
                     match &rr.data {
                         RData::DNSSEC(DNSSECRData::NSEC(nsec)) => Some((&rr.name, nsec)),
                         _ => None,
